@@ -54,13 +54,14 @@ func (r *scResult) outcome() string {
 	if r.buildErr != nil {
 		return "build-error:" + r.buildErr.Error()
 	}
+	out := strings.ReplaceAll(r.out, "\n", "|")
 	if r.hostPanic != "" {
-		return r.out + "host-panic:" + r.hostPanic
+		return out + "host-panic:" + r.hostPanic
 	}
 	if r.runErr != nil {
-		return r.out + "panic:" + panicClass(r.runErr.Error())
+		return out + "panic:" + panicClass(r.runErr.Error())
 	}
-	return r.out + "ok"
+	return out + "ok"
 }
 
 // panicClass maps the message of a run-time panic to a small enum.
